@@ -315,6 +315,40 @@ def rule_E2_pipeline(tree: Tree) -> RuleResult:
         vals = [src(s2.value) for s2 in body_walk(init.node) if isinstance(s2, ast.Assign) and dotted(s2.targets[0]) == "self.keylog"]
         r.ob(vals == ["keylog"], Finding("E2b", f"{mod2}:{cn}.__init__:shared-keylog",
                                          f"{cn} must keep the shared key list itself (`self.keylog = keylog`), found {vals}: a snapshot taken at the first packet ignores every DSB that follows", init.module.line(init.node)))
+    # … and what they are handed is that list: along run() -> handle_packet / handle_quic_packet -> Session / QuicSession the key-list argument is the
+    # bare name at every step (`keylog or []`, `list(keylog)`, `keylog[:]` hand over another object as soon as / while the list is empty)
+    run_f = tree.func("main", "run")
+    for disp, ctor in (("handle_packet", "Session"), ("handle_quic_packet", "QuicSession")):
+        r.instances += 1
+        df = tree.func("main", disp)
+        params = [a.arg for a in df.node.args.args]
+        bad = []
+        if "keylog" not in params:
+            raise AnchorMissing(f"{disp}: parameter keylog not found")
+        kpos = params.index("keylog")
+        for c in body_walk(run_f.node):
+            if isinstance(c, ast.Call) and dotted(c.func) == disp:
+                arg = c.args[kpos] if len(c.args) > kpos else next((k.value for k in c.keywords if k.arg == "keylog"), None)
+                if not (isinstance(arg, ast.Name) and arg.id == "keylog"):
+                    bad.append(f"run(): {src(arg, 40) if arg is not None else 'missing'}")
+        ctor_init = tree.cls("session" if ctor == "Session" else "quic.quic_session", ctor).methods["__init__"]
+        cparams = [a.arg for a in ctor_init.node.args.args][1:]
+        cpos = cparams.index("keylog") if "keylog" in cparams else None
+        if cpos is None:
+            raise AnchorMissing(f"{ctor}.__init__: parameter keylog not found")
+        n_ctor = 0
+        for c in body_walk(df.node):
+            if isinstance(c, ast.Call) and dotted(c.func) == ctor:
+                n_ctor += 1
+                arg = c.args[cpos] if len(c.args) > cpos else next((k.value for k in c.keywords if k.arg == "keylog"), None)
+                if not (isinstance(arg, ast.Name) and arg.id == "keylog"):
+                    bad.append(f"{disp}: {src(arg, 40) if arg is not None else 'missing'}")
+        if n_ctor == 0:
+            raise AnchorMissing(f"{disp}: construction of {ctor} not found")
+        if any(isinstance(x, ast.Name) and x.id == "keylog" and isinstance(x.ctx, ast.Store) for x in ast.walk(df.node)):
+            bad.append(f"{disp}: keylog is rebound")
+        r.ob(not bad, Finding("E2b", f"main:{disp}:keylog-handed-on", f"the key list handed to {ctor} must be the shared list object itself at every step of the call chain; found {bad}: "
+                                                                       f"a session created while the list is empty (or from a copy) never sees the secrets of a later decryption-secrets block", df.module.line(df.node)))
     # late binding: TLS secret lookup only reachable from the finalisation phase (Session.decrypt), never from ingest
     r.instances += 1
     from ..callgraph import CallGraph
